@@ -139,6 +139,14 @@ theorem message_id_step (cs : List Cmd) (counter : Nat)
 /-! non-vacuity: concrete commands meet the hypotheses -/
 /-! ### the command bodies as translated from the source text (tie by translation, `Generated/Codec.lean`) -/
 
+/-- **C12 about the translated `Command.tobytes` + `Frame.tobytes` + `crc8.calculate` + `Frame.checksum`**: for every frame
+    type, message id and payload the bytes they produce are the model's `commandToBytes` (for which `frame_wellformed` /
+    `command_wellformed` are proved), including the ValueError for an oversized payload. -/
+theorem command_frame_code (ft id : UInt8) (data : Bytes) :
+    (Generated.Codec.commandPayload data (id.toNat : Int) >>= fun p =>
+        Generated.Codec.frameTobytes ((devTypeAC).toNat : Int) 0 (ft.toNat : Int) p) = commandToBytes ft id data :=
+  CodecEq.commandToBytes_eq ft id data
+
 /-- **C12 about the translated code.** The bodies the translated `tobytes` methods hand to `Command.tobytes` are the
     bodies of the model's commands (for which `command_wellformed` is proved) - for every parameter value. -/
 theorem command_bodies_code :
